@@ -3,6 +3,8 @@
    is bound to its own configuration by harness/c04.py (check_py on the pure-Python interpreter, check_cy on
    the interpreter with the extension rebuilt from the current .pyx).  Every proof is `exact <lemma>`. *)
 From TenpyV Require Import Base.Prelude Model.KernelsPyCy Proofs.KernelsPyCyP.
+From TenpyV Require Import Model.KernelsPyCy2 Model.KernelsPyCy3 Model.KernelsPyCy2Check.
+From TenpyV Require Import Proofs.KernelsPyCyP2 Proofs.KernelsPyCyP3 Proofs.KernelsPyCyP4 Proofs.KernelsPyCyP5.
 Open Scope Z_scope.
 
 (* numpy floor-mod  ==  C truncated % followed by the sign correction, for all charge matrices of every
@@ -61,9 +63,180 @@ Proof. vm_compute. split; reflexivity. Qed.
 Example T04_example_map_blocks : map_blocks_cy [2; 0; 3] = [0; 0; 2; 2; 2].
 Proof. vm_compute. reflexivity. Qed.
 
+
+(* =====================================================================================================
+   Further kernels (Model/KernelsPyCy2.v, Model/KernelsPyCy3.v), hand transcriptions of the two sources.
+   Tie to the code: init_from_legs_py/_cy and sliced_copy_py/_cy are evaluated by harness/c04.py against their own
+   configuration (Model/KernelsPyCy2Check.v: check2_py / check2_cy on the 'pipe' and 'sliced_copy' kernel cases);
+   the merge (d) and itranspose (c) models are NOT executed against the code (those kernels are compared
+   differentially only).  (b) reuses the correspondence-checked make_valid / _find_row_differences models. *)
+
+(* ---- (d) block merge of iadd_prefactor_other: py Array.ibinary_blockwise (append to lists) vs cy
+   Array_iadd_prefactor_other (rows written into a preallocated (Na+Nb, rank) table, truncated at the end);
+   same (qdata rows, which-operands) sequence for ANY two tables of rank-long rows, any uninitialised filler *)
+Theorem T04_iadd_merge : forall junk rank stride aq bq,
+  Forall (fun r => length r = rank) aq -> Forall (fun r => length r = rank) bq ->
+  iadd_merge_cy junk rank stride aq bq = iadd_merge_py stride aq bq.
+Proof. exact iadd_merge_eq. Qed.
+
+(* the `assert False` branch is unreachable and Na+Nb iterations suffice, sorted or not *)
+Theorem T04_iadd_merge_total : forall stride aq bq, iadd_merge_py stride aq bq <> None.
+Proof. exact iadd_merge_total. Qed.
+
+(* "F-style strides to preserve sorting": on in-range rows the key sum(q * stride) orders exactly like
+   np.lexsort(qdata.T) (last column primary) *)
+Theorem T04_fkey_order : forall shape r1 r2, in_bounds shape r1 -> in_bounds shape r2 ->
+  (fkey (fstrides shape) r1 < fkey (fstrides shape) r2 <-> lexlt r1 r2).
+Proof. exact fkey_lt_iff. Qed.
+
+(* on two lexsorted tables the result uses every block of each operand exactly once and in order, every output
+   row is the row of the operand(s) its tag names (Both i j: aq[i] = bq[j]), and the output is lexsorted without
+   duplicates -- hence OnlyA/OnlyB rows do not occur in the other operand; includes the fast path aq == bq *)
+Theorem T04_iadd_merge_spec : forall shape aq bq,
+  Forall (in_bounds shape) aq -> Forall (in_bounds shape) bq -> lexsorted aq -> lexsorted bq ->
+  exists q w, iadd_merge_py (fstrides shape) aq bq = Some (q, w)
+    /\ a_indices w = seq 0 (length aq) /\ b_indices w = seq 0 (length bq)
+    /\ Forall2 (row_ok aq bq) q w
+    /\ Forall (in_bounds shape) q /\ lexsorted q /\ NoDup q.
+Proof. exact iadd_merge_spec. Qed.
+
+(* ... and the sort is necessary: fed a table that is not lexsorted (what _qdata is after a transposition; the
+   compiled version used to sort BEFORE transposing) the merge emits a duplicated block row *)
+Theorem T04_iadd_merge_unsorted_refuted :
+  exists shape aq bq q w, Forall (in_bounds shape) aq /\ Forall (in_bounds shape) bq /\ lexsorted bq
+    /\ iadd_merge_py (fstrides shape) aq bq = Some (q, w) /\ ~ NoDup q.
+Proof. exact iadd_merge_unsorted_dup. Qed.
+
+(* ---- (b) LegPipe._init_from_legs: block sizes (np.prod of fancy-indexed vectors vs in-place *= loops), fused
+   charges (np.sum + numpy floor-mod vs _partial_qtotal accumulation + C remainder), q_map[:, 2] (zeros /
+   idx[1:-1] = 1 / cumsum vs run-filling loops), the two slice columns (vectorised subtraction vs loops), bunch
+   through _find_row_differences: same q_map, q_map_slices, charges, slices and permutation for ANY number of
+   legs / blocks / charges, any sorter returning in-range row numbers, any filler of the uninitialised q_map.
+   Integer sums/products are mathematical (numpy and C wrap identically); the remainder is modelled with wrap. *)
+Theorem T04_init_from_legs : forall lexsort : list (list Z) -> list nat,
+  (forall t, length (lexsort t) = length t) ->
+  (forall t, Forall (fun p => (p < length t)%nat) (lexsort t)) ->
+  forall junk mods qconj legs gridT sort bunch,
+  gridT <> [] ->
+  Forall (fun m => 1 <= m < two62) mods ->
+  Forall (Forall (fun q => - two62 < q < two62)) (charges_raw_py (length mods) qconj legs gridT) ->
+  init_from_legs_cy lexsort junk mods qconj legs gridT sort bunch
+  = init_from_legs_py lexsort mods qconj legs gridT sort bunch.
+Proof. exact init_from_legs_eq. Qed.
+
+(* ---- (a) _sliced_copy: numpy strided slice assignment vs pointer offsets + memcpy of the last axis + 1/2/3
+   explicit dimensions + recursion three dimensions at a time; every ndim >= 1, every element type *)
+Theorem T04_sliced_copy : forall (A : Type) (dflt : A) src dest dstr dbeg sstr sbeg shape,
+  shape <> [] ->
+  length dstr = length shape -> length sstr = length shape ->
+  length dbeg = length shape -> length sbeg = length shape ->
+  last_ok shape dstr sstr ->
+  sliced_copy_cy dflt src dest dstr dbeg sstr sbeg shape = sliced_copy_py dflt src dest dstr dbeg sstr sbeg shape.
+Proof. exact (@sliced_copy_eq). Qed.
+
+(* C-contiguous operands (the documented precondition) satisfy the stride hypothesis *)
+Theorem T04_sliced_copy_contiguous : forall (A : Type) (dflt : A) src dest dshape sshape dbeg sbeg shape,
+  shape <> [] ->
+  length dshape = length shape -> length sshape = length shape ->
+  length dbeg = length shape -> length sbeg = length shape ->
+  sliced_copy_cy dflt src dest (cstrides dshape) dbeg (cstrides sshape) sbeg shape
+  = sliced_copy_py dflt src dest (cstrides dshape) dbeg (cstrides sshape) sbeg shape.
+Proof. exact (@sliced_copy_eq_contiguous). Qed.
+
+(* ndim = 0 is excluded for a reason: numpy copies the element, the compiled code returns at `if ndim < 1`
+   (reproduced on the code: charges._sliced_copy(np.array(1.), e, np.array(7.), e, e), e = empty intp array,
+   gives 7. with TENPY_NO_CYTHON=1 and leaves 1. with the extension; not reachable from Array methods) *)
+Theorem T04_sliced_copy_rank0_refuted :
+  exists (src dest : list Z),
+    sliced_copy_cy 0 src dest [] [] [] [] [] <> sliced_copy_py 0 src dest [] [] [] [] [].
+Proof. exact sliced_copy_rank0_differs. Qed.
+
+(* ---- (c) itranspose: list comprehensions + validating iset_leg_labels + strided block VIEWS vs append loop
+   without validation + C-contiguous block COPIES: same legs, labels, _qdata, flag reset, and the same shape and
+   elements of every block (memory layout is not observed), same ValueError for bad axes, same early exit for
+   the identity -- for every Array whose labels are valid (the class invariant), every rank and block shape *)
+Theorem T04_itranspose : forall a axes,
+  labels_valid (a_labels a) = true -> length (a_labels a) = length (a_legs a) ->
+  opt_obs_eq (itranspose_cy a axes) (itranspose_py a axes).
+Proof. exact itranspose_eq. Qed.
+
+(* with valid axes the python side does not raise, permutes legs / labels / _qdata columns and resets the flag *)
+Theorem T04_itranspose_py_ok : forall a axes,
+  labels_valid (a_labels a) = true -> length (a_labels a) = length (a_legs a) ->
+  axes_ok (length (a_legs a)) axes = true ->
+  exists r, itranspose_py a axes = Some r
+    /\ (axes <> seq 0 (length (a_legs a)) ->
+        a_sorted r = false /\ a_legs r = pick 0%nat (a_legs a) axes /\ a_labels r = pick None (a_labels a) axes
+        /\ a_qdata r = map (fun row => pick 0 row axes) (a_qdata a)).
+Proof. exact itranspose_py_ok. Qed.
+
+(* the invariant is needed: on an Array with a duplicated label python raises, the compiled version permutes *)
+Theorem T04_itranspose_invalid_labels_refuted :
+  exists a axes, length (a_labels a) = length (a_legs a) /\ itranspose_py a axes = None /\ itranspose_cy a axes <> None.
+Proof. exact itranspose_invalid_labels_differ. Qed.
+
+(* non-vacuity / worked values *)
+Example T04_example_iadd_merge :
+  iadd_merge_cy 99 2 (fstrides [2; 3]) [[0; 0]; [1; 1]; [0; 2]] [[1; 0]; [1; 1]]
+  = Some ([[0; 0]; [1; 0]; [1; 1]; [0; 2]], [OnlyA 0%nat; OnlyB 0%nat; Both 1%nat 1%nat; OnlyA 2%nat])
+  /\ lexsorted [[0; 0]; [1; 1]; [0; 2]] /\ lexsorted [[1; 0]; [1; 1]]
+  /\ Forall (in_bounds [2; 3]) [[0; 0]; [1; 1]; [0; 2]] /\ Forall (in_bounds [2; 3]) [[1; 0]; [1; 1]].
+Proof.
+  split; [vm_compute; reflexivity|].
+  split; [cbn; split; [left; right; split; [reflexivity|lia]|split; [left; right; split; [reflexivity|lia]|exact I]]|].
+  split; [cbn; split; [left; right; split; [reflexivity|lia]|exact I]|].
+  split; repeat constructor; cbn; lia.
+Qed.
+(* the values tenpy prints for LegPipe([l1, l2], qconj=-1), ChargeInfo([1, 3]), l1 = (+1, charges
+   [[0,0],[1,2],[2,1]], block sizes [1,2,1]), l2 = (-1, [[0,1],[1,0]], [2,1]) in both configurations *)
+Example T04_example_init_from_legs :
+  let legs := [mkPleg 1 [[0; 0]; [1; 2]; [2; 1]] [1; 2; 1]; mkPleg (-1) [[0; 1]; [1; 0]] [2; 1]] in
+  let gridT := [[0; 0]; [0; 1]; [1; 0]; [1; 1]; [2; 0]; [2; 1]] in
+  init_from_legs_cy lexsort_ins 99 [1; 3] (-1) legs gridT true true
+  = mkPO [[0; 2; 0; 2; 0]; [0; 1; 1; 0; 1]; [0; 2; 2; 0; 0]; [2; 4; 2; 1; 1]; [0; 4; 3; 1; 0]; [4; 5; 3; 2; 1]]
+         [0; 1; 2; 4; 6] [[-2; 0]; [1; 0]; [0; 1]; [-1; 2]] [0; 2; 3; 7; 12]
+         (Some [4; 1; 0; 3; 2; 5]%nat)
+  /\ po_qmap_slices (init_from_legs_py lexsort_ins [1; 3] (-1) legs gridT true false) = [0; 1; 2; 3; 4; 5; 6]
+  /\ (forall t, length (lexsort_ins t) = length t)
+  /\ (forall t, Forall (fun p => (p < length t)%nat) (lexsort_ins t)).
+Proof.
+  split; [vm_compute; reflexivity|]. split; [vm_compute; reflexivity|].
+  split; [exact lexsort_ins_len|exact lexsort_ins_rng].
+Qed.
+(* dest[1:3, 0:2] = src[0:2, 1:3] for dest 3x4, src 2x3; a 4-dimensional copy through the recursive branch *)
+Example T04_example_sliced_copy :
+  sliced_copy_cy 0 [0; 1; 2; 3; 4; 5] (repeat (-1) 12) (cstrides [3; 4]%nat) [1; 0]%nat (cstrides [2; 3]%nat) [0; 1]%nat [2; 2]%nat
+  = [-1; -1; -1; -1; 1; 2; -1; -1; 4; 5; -1; -1]
+  /\ sliced_copy_cy 0 [1; 2; 3; 4; 5; 6; 7; 8] (repeat 0 24) (cstrides [2; 1; 3; 4]%nat) [0; 0; 1; 2]%nat
+                    (cstrides [2; 1; 2; 2]%nat) [0; 0; 0; 0]%nat [2; 1; 2; 2]%nat
+     = [0; 0; 0; 0; 0; 0; 1; 2; 0; 0; 3; 4; 0; 0; 0; 0; 0; 0; 5; 6; 0; 0; 7; 8].
+Proof. split; vm_compute; reflexivity. Qed.
+(* a rank-3 Array with one 1x2x3 block, labels ('a', None, 'b'), transposed with axes (2, 0, 1) *)
+Example T04_example_itranspose :
+  let a := mkArr [10; 11; 12]%nat [Some 1; None; Some 2]%nat [[0; 1; 2]]
+                 [mkView [1; 2; 3; 4; 5; 6] [1; 2; 3]%nat [6; 3; 1]%nat] true in
+  labels_valid (a_labels a) = true
+  /\ option_map arr_obs (itranspose_cy a [2; 0; 1]%nat)
+     = Some ([12; 10; 11]%nat, [Some 2; Some 1; None]%nat, [[2; 0; 1]], [([3; 1; 2]%nat, [1; 4; 2; 5; 3; 6])], false)
+  /\ option_map (fun r => map v_strides (a_blocks r)) (itranspose_py a [2; 0; 1]%nat) = Some [[1; 6; 3]%nat]
+  /\ option_map (fun r => map v_strides (a_blocks r)) (itranspose_cy a [2; 0; 1]%nat) = Some [[2; 2; 1]%nat].
+Proof. vm_compute. repeat split; reflexivity. Qed.
+
 Print Assumptions T04_make_valid.
 Print Assumptions T04_check_valid.
 Print Assumptions T04_find_row_differences.
 Print Assumptions T04_find_row_differences_empty_refuted.
 Print Assumptions T04_make_stride.
 Print Assumptions T04_map_blocks.
+Print Assumptions T04_iadd_merge.
+Print Assumptions T04_iadd_merge_total.
+Print Assumptions T04_fkey_order.
+Print Assumptions T04_iadd_merge_spec.
+Print Assumptions T04_iadd_merge_unsorted_refuted.
+Print Assumptions T04_init_from_legs.
+Print Assumptions T04_sliced_copy.
+Print Assumptions T04_sliced_copy_contiguous.
+Print Assumptions T04_sliced_copy_rank0_refuted.
+Print Assumptions T04_itranspose.
+Print Assumptions T04_itranspose_py_ok.
+Print Assumptions T04_itranspose_invalid_labels_refuted.
